@@ -389,9 +389,19 @@ def run_fault(case, site, code, persistent):
             # the call is rejected even without fault. The statement allows two outcomes after the failure: the
             # earlier binding is intact, or the pid is unbound and can be stored again at once
             now = a.pid_refs.get(subject)
-            if now != case.start_abs.pid_refs.get(subject):
+            was = case.start_abs.pid_refs.get(subject)
+            try:
+                named = case.layout.cid_of(case.contents[case.call.get("content") or case.call["cid"][1]])
+            except (KeyError, IndexError, TypeError):
+                named = None
+            if now != was:
                 if now is not None:
-                    probs.append(("earlier-binding-replaced", {"before": case.start_abs.pid_refs.get(subject), "after": now}))
+                    probs.append(("earlier-binding-replaced", {"before": was, "after": now}))
+                elif was is not None and named is not None and was != named:
+                    # the failed call named ANOTHER object: undoing it cannot involve the binding the pid already had.
+                    # ('unbound and can be stored again' describes the binding the call tried to create; the binding to
+                    # something else is the 'earlier binding' that must be intact)
+                    probs.append(("earlier-binding-to-another-object-lost", {"before": was, "named_by_failed_call": named}))
                 else:
                     fresh = case.open(case.rundir)
                     env2 = case.world("run", fresh)
